@@ -2,7 +2,8 @@
 # For every world and every workload name present (both spellings), names shared across namespaces, absent names and
 # `ingress-controller`: the real `list --focusworkload W` against the real unfocused `list`, related by a Coq-evaluated
 # checker (focus_filter_b); nothing matching => empty result + warning, never an error; formats on a sample.
-from .lib import core, gen, listcorr, meta
+import os, subprocess
+from .lib import core, gen, listcorr, meta, fmt
 from .lib.core import cstr, cnat, clist
 
 
@@ -31,11 +32,12 @@ def main(tier):
                        '(decided by the Coq-evaluated checker focus_filter_b), with identical connections; nothing matching => ok + empty + warning; '
                        'non-trivial = the focus matches a workload and filters out at least one entry; distinct by (scenario, focus)')
     run.stage_proofs()
-    b = core.build_go(['verifapi'], run.log)
-    if not b['verifapi'][0]:
+    b = core.build_go(['verifapi', 'k8snetpolicy'], run.log)
+    if not (b['verifapi'][0] and b['k8snetpolicy'][0]):
         run.proof_ok = False
-        run.proof_notes.append('harness verifapi does not build against this tree: ' + b['verifapi'][1][-600:])
+        run.proof_notes.append('harness verifapi or the CLI does not build against this tree: ' + (b['verifapi'][1] + b['k8snetpolicy'][1])[-600:])
         return run.finish()
+    binp = os.path.join(core.BUILD, 'k8snetpolicy')
     n = 100 if tier == 'quick' else 2500
     h = listcorr.Harness()
     try:
@@ -66,16 +68,19 @@ def main(tier):
                 if len(focuses) > 5:
                     focuses = run.rng.sample(focuses, 5)
                 anyname = sorted(names)[0]
+                bare = sorted(x for x in names if '/' not in x)
                 focuses += [run.rng.choice(['nosuch', 'ns1/nosuch', 'w0x']), 'ingress-controller',
-                            anyname[1:] if len(anyname) > 1 else 'zz', anyname[:-1] if len(anyname) > 1 else 'zz']   # proper suffix / prefix of a present name
+                            anyname[1:] if len(anyname) > 1 else 'zz', anyname[:-1] if len(anyname) > 1 else 'zz',   # proper suffix / prefix of a present name
+                            run.rng.choice(bare).upper(),                 # the same letters in another case: names are case sensitive
+                            'default/' + run.rng.choice(bare)]            # namespace/name with the default namespace spelled out
                 cmds.append({'id': 'f%d' % cid, 'cmd': 'list', 'dir': d})
                 for f in focuses:
                     cmds.append({'id': '%d:%s' % (cid, f), 'cmd': 'list', 'dir': d, 'focus': f})
-                meta_.append((cid, W, dl, focuses))
+                meta_.append((cid, W, dl, focuses, d))
             outs = h.run(cmds)
             pos = 0
             cases, info = [], {}
-            for cid, W, dl, focuses in meta_:
+            for cid, W, dl, focuses, d_ in meta_:
                 full = outs[pos]; pos += 1
                 for f in focuses:
                     of = outs[pos]; pos += 1
@@ -86,6 +91,20 @@ def main(tier):
                     if of['outcome'] == 'panic':
                         run.report(None, 'panic-%d' % key, payload, 'list --focusworkload panicked')
                         continue
+                    if f.startswith('default/') or (cid % 5 == 0 and f == focuses[0]):
+                        # the command line itself (the flag is parsed by the CLI before it reaches the library)
+                        pr = subprocess.run([binp, 'list', '--dirpath', d_, '-o', 'json', '--focusworkload', f, '-q'], capture_output=True, text=True, timeout=300)
+                        run.dist('cli:run')
+                        if of['outcome'] == 'ok':
+                            try:
+                                rows = fmt.LIST_PARSERS['json'](pr.stdout) if pr.returncode == 0 else None
+                            except Exception:
+                                rows = None
+                            if rows != fmt.api_rows(of):
+                                run.report(None, 'cli-%d' % key, dict(payload, args=['list', '--dirpath', 'DIR', '-o', 'json', '--focusworkload', f], exit=pr.returncode,
+                                                                        stdout=pr.stdout[-2000:], library_rows=fmt.api_rows(of)),
+                                           'k8snetpolicy list --focusworkload prints a different report than the library computes for the same focus')
+                                continue
                     if full['outcome'] != 'ok':
                         run.dist('skipped:unfocused-analysis-error')
                         continue
